@@ -989,11 +989,12 @@ impl<'a> Exec<'a> {
 /// progress), 1 = mixed, 2 = aggressive (many exhausting calls).
 fn gen_k(rng: &mut Rng, n: usize, rem: usize, allow_huge: bool, huge_weight: u32, style: u8) -> usize {
     // classes: small step | 0..N+1 | around remaining | N+2..64 | MAX/2 | MAX-1 | MAX | random u64
+    //          | just around a power of two (where a narrowing cast of n would wrap)
     let w_huge = if allow_huge { huge_weight } else { 0 };
     let w = match style {
-        0 => [70, 8, 12, 2, w_huge / 2, w_huge / 2, w_huge, w_huge / 2],
-        1 => [35, 25, 18, 4, w_huge, w_huge, 2 * w_huge, w_huge],
-        _ => [10, 40, 20, 6, w_huge, w_huge, 2 * w_huge, w_huge],
+        0 => [70, 8, 12, 2, w_huge / 2, w_huge / 2, w_huge, w_huge / 2, w_huge],
+        1 => [35, 25, 18, 4, w_huge, w_huge, 2 * w_huge, w_huge, 2 * w_huge],
+        _ => [10, 40, 20, 6, w_huge, w_huge, 2 * w_huge, w_huge, 2 * w_huge],
     };
     match rng.weighted(&w) {
         0 => rng.usize_below(rem / 3 + 1),
@@ -1006,7 +1007,17 @@ fn gen_k(rng: &mut Rng, n: usize, rem: usize, allow_huge: bool, huge_weight: u32
         4 => usize::MAX / 2 + rng.usize_below(3) - 1,
         5 => usize::MAX - 1,
         6 => usize::MAX,
-        _ => (rng.next_u64() | (1 << 40)) as usize,
+        7 => (rng.next_u64() | (1 << 40)) as usize,
+        _ => {
+            // 2^b - 1, 2^b, 2^b + (0..N+1): wraps to a small in-range value under `as u8/u16/u32`
+            let b = [8u32, 16, 31, 32, 48, 63][rng.usize_below(6)];
+            let base = 1usize << b;
+            match rng.below(4) {
+                0 => base - 1,
+                1 => base,
+                _ => base.wrapping_add(rng.usize_below(n + 2)),
+            }
+        }
     }
 }
 
